@@ -1,0 +1,36 @@
+//go:build verif
+
+package multiproof
+
+import (
+	"github.com/crate-crypto/go-ipa/bandersnatch/fr"
+	"github.com/crate-crypto/go-ipa/common"
+)
+
+// Verification hooks (build tag verif).
+
+const verifOn = true
+
+// VerifGroupGate, when set, is called by every grouping worker right before it hands its result to the
+// merging goroutine, with the bounds of its batch; it may block (a driver uses it to force an arrival order).
+var VerifGroupGate func(start, end int)
+
+func verifGate(start, end int) {
+	if g := VerifGroupGate; g != nil {
+		g(start, end)
+	}
+}
+
+// VerifLabels returns copies of the Fiat-Shamir labels of this package.
+func VerifLabels() [][]byte {
+	out := [][]byte{}
+	for _, l := range [][]byte{labelC, labelZ, labelY, labelD, labelE, labelT, labelR, labelDomainSep} {
+		out = append(out, append([]byte(nil), l...))
+	}
+	return out
+}
+
+// VerifGroupPolys exposes groupPolynomialsByEvaluationPoint.
+func VerifGroupPolys(fs [][]fr.Element, powersOfR []fr.Element, zs []uint8) [common.VectorLength][]fr.Element {
+	return groupPolynomialsByEvaluationPoint(fs, powersOfR, zs)
+}
